@@ -125,6 +125,10 @@ class _CGMYLevyMeasure(LevyMeasure):
         return 0
 
     def integrate(self, a: float, b: float) -> float:
+        if a < 0 < b and self.parameters.y < 0:
+            # finite activity: the mass around zero is finite
+            return self.integrate(a, 0.0) + self.integrate(0.0, b)
+
         if b == np.inf:
             if a == np.inf:
                 return 0.0
@@ -217,6 +221,9 @@ class _CGMYLevyMeasure(LevyMeasure):
         uh = u * h
         if alpha == 0:
             return scipy.special.exp1(uh)
+
+        if h == 0 and alpha < 0:
+            return scipy.special.gamma(-alpha) * u**alpha
 
         expmuh = np.exp(-uh)
         if alpha >= 1:
